@@ -119,7 +119,7 @@ def _powi(u, n, K, mp):
     return result
 
 
-def eval_jet(tree, x0, K, ctx, with_noise=True, log_formula_noise=False):
+def eval_jet(tree, x0, K, ctx, with_noise=True, log_formula_noise=False, perturb=None):
     """Returns (coefficients list of length K+1, noise float).  Raises ZeroDivisionError / ValueError on
     domain problems."""
     mp = ctx.mp
@@ -129,6 +129,14 @@ def eval_jet(tree, x0, K, ctx, with_noise=True, log_formula_noise=False):
         return [mp.mpf(1)] + [mp.mpf(0)] * K
 
     def ev(t):
+        # `perturb` (a callable returning -1, 0 or +1) models an evaluation of the same recurrences in binary64: every
+        # coefficient of every node is committed with a relative rounding of one eps
+        v, nz = ev0(t)
+        if perturb is not None:
+            v = [c * (1 + EPS * perturb()) for c in v]
+        return v, nz
+
+    def ev0(t):
         k = t[0]
         if k == 'x':
             # the abscissa x0 +- h the program is evaluated at is itself rounded: eps*|x0|
@@ -242,3 +250,16 @@ def eval_jet(tree, x0, K, ctx, with_noise=True, log_formula_noise=False):
 
     coefs, noise = ev(tree)
     return coefs, noise
+
+
+def coefficient_noise(tree, x0, n, ctx, rng, runs=6, exact=None):
+    """Measured rounding sensitivity of the n-th Taylor coefficient when the program is evaluated in truncated
+    Taylor arithmetic of order n in binary64 (what a complex / bicomplex step evaluation is): the largest deviation of
+    c_n over `runs` evaluations in which every node's coefficients carry a random +-eps relative perturbation."""
+    if exact is None:
+        exact = eval_jet(tree, x0, n, ctx)[0][n]
+    worst = 0.0
+    for _ in range(runs):
+        c, _nz = eval_jet(tree, x0, n, ctx, perturb=lambda: int(rng.integers(-1, 2)))
+        worst = max(worst, float(abs(c[n] - exact)))
+    return worst
